@@ -59,6 +59,7 @@ type Unit struct {
 	strLits   map[string]string // literal constant symbol -> Go string
 	extraCands []string
 	trackCalls map[string]bool
+	trackArgSets map[string]bool // "Name.i": the set of values argument i of calls to Name has taken is recorded (calledwitharg)
 	argKeyType map[string]types.Type
 	ghostBlock map[string]*ssa.BasicBlock
 	quantHypLines map[int]bool // indices into lines: quantified loop-invariant assumptions
@@ -86,7 +87,7 @@ type Unit struct {
 }
 
 func newUnit(eng *Engine, name string, mode Mode) *Unit {
-	u := &Unit{eng: eng, Name: name, mode: mode, declared: map[string]bool{}, keySort: map[string]string{}, kindCount: map[string]int{}, Notes: map[string]bool{}, specDone: map[string]*compiledSpec{}, trackCalls: map[string]bool{}, argKeyType: map[string]types.Type{}, quantHypLines: map[int]bool{}, typingLines: map[int]bool{}, entryHeld: map[string][]string{}, freshRefs: map[string]bool{}, keyElem: map[string]types.Type{}}
+	u := &Unit{eng: eng, Name: name, mode: mode, declared: map[string]bool{}, keySort: map[string]string{}, kindCount: map[string]int{}, Notes: map[string]bool{}, specDone: map[string]*compiledSpec{}, trackCalls: map[string]bool{}, trackArgSets: map[string]bool{}, argKeyType: map[string]types.Type{}, quantHypLines: map[int]bool{}, typingLines: map[int]bool{}, entryHeld: map[string][]string{}, freshRefs: map[string]bool{}, keyElem: map[string]types.Type{}}
 	u.safety = map[string]bool{"index": true, "slice": true, "div": true, "makelen": true, "typeassert": true, "overflow": !mode.BV, "nil": false, "panic": true, "shift": true}
 	u.prelude()
 	return u
